@@ -233,7 +233,8 @@ def judge(case, outs):
         return absx.fmt(t)[:50]
     for o in outs:
         tests = [(a, t) for a, t in o.pc if a[0] != 'range' and absx.leaves(a, lambda x: x[0] == 'param')]          # (what the decoder tested of the generic leaves)
-        cond = (' when ' + ', '.join(('' if t else 'not ') + absx.fmt(a)[:50] for a, t in tests)[:160]) if tests else ''
+        # (the last tests are the ones that tell this outcome from its neighbours: the earlier ones are shared with them)
+        cond = (' when ' + ('.. ' if len(tests) > 3 else '') + ', '.join(('' if t else 'not ') + absx.fmt(a)[:70] for a, t in tests[-3:])[:220]) if tests else ''
         if o.kind == 'error':
             if case.kind == 'good' and not (case.want_id is None):
                 wrong.append('answered with a decoding error%s' % cond)
